@@ -47,7 +47,7 @@ HYPO = {
 
 def scenarios(quick: bool, rng):
     shapes = [(2, 3), (1, 2), (3, 2)] if quick else [(2, 3), (1, 2), (3, 2), (1, 1), (4, 4), (2, 1), (3, 3)]
-    seeds = [1, 2, 0] if quick else [1, 2, 3, 4, 5, 6, 7, 0]
+    seeds = [1, 2, 0] if quick else [1, 2, 3, 4, 5, 6, 7, 8, 9, 10, 11, 0]
     out = []
     for (nb, np_), mem, auto in itertools.product(shapes, MEMS, (False, True)):
         for seed in seeds:
@@ -74,6 +74,9 @@ def run(ctx) -> None:
     quick = ctx.quick
     rng = random.Random(ctx.seed)
     world = C.World()
+    if ctx.replay:
+        np.seterr(all="ignore")
+        return C.replay_case(ctx, world, ctx.replay, own_ops=set(C04_OPS))
     np.seterr(all="ignore")
     ctx.rule = ("every (scenario, operation) case enumerated by TLC (Containers.tla: member subsets x auto/cross x shapes x "
                 "contents; PatchSum, Sample, RedshiftCF/CD, Normalise, also after Mul/Bins/Patches) is executed on real "
@@ -92,8 +95,8 @@ def run(ctx) -> None:
         jobs["emit d1"] = pool.submit(C.run_model, scens, C04_OPS, 1, invariants=["TypeOK", "AcceptIffValid", "RedshiftLaw"],
                                       emit=True, workers=4)
         jobs["laws d2"] = pool.submit(C.run_model, deep, DEEP_OPS, 2, invariants=C.LAWS_C04, selset="small", workers=6)
-        jobs["emit d2"] = pool.submit(C.run_model, deep, DEEP_OPS, 2, invariants=["TypeOK", "AcceptIffValid", "RedshiftLaw"],
-                                      emit=True, selset="small" if quick else "full", workers=6)
+        jobs["emit d2"] = pool.submit(C.run_model, deep, DEEP_OPS, 2 if quick else 3, invariants=["TypeOK", "AcceptIffValid", "RedshiftLaw"],
+                                      emit=True, selset="small", workers=6)
         jobs["cover"] = pool.submit(C.run_model, deep, C04_OPS, 1, invariants=["TypeOK"], coverage=True, workers=2)
         for dev, (sc, ops, invs) in HYPO.items():
             jobs["dev " + dev] = pool.submit(C.run_model, [sc], ops, 1, invariants=invs, dev=[dev], workers=1)
@@ -174,7 +177,9 @@ def run(ctx) -> None:
         caught += hit
         if not hit:
             missed.append((op, sk))
-    ctx.require(tried >= 20 and caught == tried, f"binding demonstration failed: {caught}/{tried} corrupted expectations noticed; missed {missed[:5]}")
+    # (a library so broken that hardly any step is clean is reported through its violations, not as a machinery failure)
+    ctx.require((tried >= 20 or bool(ctx._violations)) and caught == tried,
+                f"binding demonstration failed: {caught}/{tried} corrupted expectations noticed; missed {missed[:5]}")
     ctx.extra["binding_demo"] = dict(corrupted_expectations=tried, noticed=caught, per_operation=per_op)
 
     # reference evaluator (property formulas in floats) validated against TLC, then applied to measured counts
@@ -194,9 +199,11 @@ def corrupt_c04(res):
         bad = json.loads(json.dumps(res))
         data0, _ = C.nz_expected(res["items"])
         for b, x in enumerate(data0):
-            if np.isfinite(x) and x != 0.0:
-                n, d = bad["items"][0]["data"][b]
-                bad["items"][0]["data"][b] = [2 * n, d]
+            if np.isfinite(x):
+                for pos in (0, 3):   # the alternative w_sp (if any) as well
+                    if pos < len(bad["items"]):
+                        n, d = bad["items"][pos]["data"][b]
+                        bad["items"][pos]["data"][b] = [n + 3 * d, d]
                 return bad
     return None
 
@@ -288,7 +295,7 @@ def end_to_end(ctx, world, rng, quick) -> None:
     runs = 0
     combos = []
     with scratch("c04_") as root:
-        for trial in range(2 if quick else 8):
+        for trial in range(2 if quick else 12):
             npatch = rng.choice([2, 3, 4])
             seed = ctx.seed * 100 + trial
             centers = data.centers_grid(npatch, sep_deg=3.0)
